@@ -68,6 +68,8 @@ def check(src, rep):
                 if runs is None:
                     continue
                 jobs.append((text, runs, "built from its runs"))
+                if text and (len(text) <= 3 or rep.tier == "thorough"):
+                    jobs.append((text, runs, "cut with [] out of a longer value that had been measured"))
                 if len(runs) == 2 and (len(text) <= 3 or rep.tier == "thorough"):
                     # the same characters, arrived at through a history: an operand whose views were memoised, then +
                     jobs.append((text, [runs[0], (runs[1][0], {})], "a looked-at value + a plain str"))
@@ -82,7 +84,13 @@ def check(src, rep):
             v = mk(it, *runs)
         else:
             from .c06 import _look
-            if build == "a looked-at value + a plain str":
+            if build == "cut with [] out of a longer value that had been measured":
+                ext = [list(r) for r in runs]
+                ext[0][0] = "z" + WIDE + ext[0][0]
+                ext[-1][0] = ext[-1][0] + "zz"
+                longer = _look(it, mk(it, *[tuple(r) for r in ext]))
+                r0 = it.callm(longer, "__getitem__", slice(2, 2 + len(text)))
+            elif build == "a looked-at value + a plain str":
                 r0 = it.callm(_look(it, mk(it, runs[0])), "__add__", runs[1][0])
             elif build == "a plain str + a looked-at value":
                 r0 = it.callm(_look(it, mk(it, runs[1])), "__radd__", runs[0][0])
